@@ -13,7 +13,7 @@ def queries():
     for tier, ns in (('quick', (3,)), ('thorough', (4, 5))):
         for n in ns:
             for sk, nm in SINKS.items():
-                qs.append(Q('append_%s_n%d_%s' % (nm, n, tier), 'C17_sinks.c', 'sinks.cpp', config='small', noinline=True, stubs=ST, defs={'SINK': sk, 'OP': 1, 'N': n}, unwind=n + 4, hunwind=n + 8, heap_cap=max(4 * n + 8, 32), object_bits=10,
+                qs.append(Q('append_%s_n%d_%s' % (nm, n, tier), 'C17_sinks.c', 'sinks.cpp', config='small', noinline=True, stubs=ST, defs={'SINK': sk, 'OP': 1, 'N': n}, unwind=n + 4, hunwind=(2 * n if sk == 7 else n) + 8, heap_cap=max(4 * n + 8, 32), object_bits=10,
                             tiers=(tier,), bound={'sink': nm, 'chunk bytes': n, 'pad count<=': 3}, timeout=900 if tier == 'quick' else 3000, mem_gb=8))
             for sk in (2, 3, 4, 5):
                 qs.append(Q('insert_%s_n%d_%s' % (SINKS[sk], n, tier), 'C17_sinks.c', 'sinks.cpp', config='small', noinline=True, stubs=ST, defs={'SINK': sk, 'OP': 2, 'N': n}, unwind=n + 4, hunwind=n + 8, heap_cap=max(4 * n + 8, 32), object_bits=10,
